@@ -208,6 +208,15 @@ class Program(object):
         def serialize_value(value, argument, command):
             # type: (Any, Argument, Command) -> str
 
+            if isinstance(value, ListArgument):
+                value = value.value
+            if isinstance(value, (list, tuple)):
+                return "[{}]".format(
+                    ", ".join(serialize_value(x, argument, command) for x in value)
+                )
+            if isinstance(value, Command):
+                return value.result_name
+
             param = command.inputs[argument.name]
 
             if isinstance(param, ResultParameter) or (
